@@ -44,6 +44,11 @@ func zzFailedCanaryStore() (*fakeapi.Client, *datadoghqv1alpha1.ExtendedDaemonSe
 	if nondet.Bool("ann.unpaused") {
 		ds.Annotations[datadoghqv1alpha1.ExtendedDaemonSetCanaryUnpausedAnnotationKey] = "true"
 	}
+	// the active replica set may itself have been promoted by `canary validate` in its day: the
+	// annotation naming it is still there (nothing removes it) and says nothing about this canary
+	if nondet.Bool("ann.validNamesTheActiveReplicaSet") {
+		ds.Annotations[datadoghqv1alpha1.ExtendedDaemonSetCanaryValidAnnotationKey] = "foo-a"
+	}
 	ds.Status.ActiveReplicaSet = "foo-a"
 	ds.Status.State = datadoghqv1alpha1.ExtendedDaemonSetStatusStateCanary
 	ds.Status.Desired, ds.Status.Current, ds.Status.Ready, ds.Status.Available, ds.Status.UpToDate = 4, 4, 3, 3, 1
